@@ -297,7 +297,7 @@ class Translator:
                 raise Unsupported(m.where, e, 'call receiver is neither self nor an imported module of self')
             via_self = owner == m.cls and isinstance(e.func.value, ast.Name)
             f = e.func.attr
-            if e.keywords:
+            if e.keywords and not (f in self.methods and self.methods[f].body_coq is not None):
                 raise Unsupported(m.where, e, 'keyword arguments')
             if f in ('prop1', 'prop2', 'prop3'):
                 if e.args:
@@ -349,10 +349,20 @@ class Translator:
                     m.calls.append(f)
                 if len(e.args) > len(callee.params):
                     raise Unsupported(m.where, e, 'too many arguments')
+                # keyword arguments = the positional binding by parameter name
+                by_pos = list(e.args) + [None] * (len(callee.params) - len(e.args))
+                names_ = [pn for pn, _, _ in callee.params]
+                for kw in e.keywords:
+                    if kw.arg is None or kw.arg not in names_:
+                        raise Unsupported(m.where, e, f'keyword argument {kw.arg!r} is not a parameter of {f}')
+                    k_ = names_.index(kw.arg)
+                    if by_pos[k_] is not None:
+                        raise Unsupported(m.where, e, f'argument {kw.arg} given twice')
+                    by_pos[k_] = kw.value
                 out = []
                 for i, (pn, pt, pd) in enumerate(callee.params):
-                    if i < len(e.args):
-                        a = e.args[i]
+                    if by_pos[i] is not None:
+                        a = by_pos[i]
                         out.append(self.pat_expr(m, a, env, hoist) if pt == 'pat' else
                                    self.evar_expr(m, a, env) if pt == 'evar' else self.thunk_expr(m, a, env, hoist))
                     elif pd is not None:
@@ -626,6 +636,11 @@ def translate(repo_src, extra_path):
         for n in node.body:
             if isinstance(n, ast.FunctionDef):
                 if n.name == '__init__':
+                    continue
+                if n.decorator_list and n.name in ALGORITHMIC:
+                    mt = Method(cls, n, text)          # outside the translated set anyway: decorators are irrelevant
+                    methods[n.name] = mt
+                    order.append(n.name)
                     continue
                 if n.decorator_list:
                     if n.name.startswith('_'):
